@@ -69,12 +69,23 @@ def conflict_bounds(ctx, pre, name: str, protocol: str, count_ddelay: bool, mode
     for other, cs in pre.channels.items():
         if other == name:
             continue
+        best = None
         for s in reversed(cs.slots):
-            if is_user_pulse(ctx, other, s) or (s.kind == "ddelay" and count_ddelay):
+            user = is_user_pulse(ctx, other, s)
+            if user or (s.kind == "ddelay" and count_ddelay):
                 if protocol == "wait-for-all" or (mine & set(s.targets)):
                     eom = slot_in_eom(s, cs) if mode == "slot" else cs.in_eom
-                    out[other] = (s.tf + fall_time(s, cs, eom), s)
-                    break
+                    b = s.tf + fall_time(s, cs, eom)
+                    if best is None or b > best[0]:
+                        best = (b, s)
+                    # automatic detuned delays are transparent: the pulse
+                    # behind them may take longer to ramp down
+                    if user and s.kind == "pulse":
+                        break
+                    if not count_ddelay:
+                        break
+        if best is not None:
+            out[other] = best
     return out
 
 
